@@ -130,14 +130,44 @@ func buildStateGraph(p *core.Program, a *Anchors, r *core.Result) *stateGraph {
 						continue
 					}
 					if fr.Field == stateField {
-						to := boundTarget(p, x.Val)
-						if to == nil || g.Nodes[to] == nil {
+						// the stored value: a bound state method, or a choice (phi) of such — one
+						// transition per choice, under the facts of the way that choice was made
+						type choice struct {
+							to    *ssa.Function
+							facts []ssax.Fact
+						}
+						var choices []choice
+						bad := false
+						var collect func(v ssa.Value, facts []ssax.Fact, depth int)
+						collect = func(v ssa.Value, facts []ssax.Fact, depth int) {
+							if ph, isPhi := v.(*ssa.Phi); isPhi && depth < 4 {
+								for i, ev := range ph.Edges {
+									pb := ph.Block().Preds[i]
+									fs := append([]ssax.Fact{}, ssax.Facts(pb)...)
+									if iff, ok := pb.Instrs[len(pb.Instrs)-1].(*ssa.If); ok && pb.Succs[0] != pb.Succs[1] {
+										fs = append(fs, ssax.ExpandCond(iff.Cond, pb.Succs[0] == ph.Block())...)
+									}
+									collect(ev, fs, depth+1)
+								}
+								return
+							}
+							to := boundTarget(p, v)
+							if to == nil || g.Nodes[to] == nil {
+								bad = true
+								return
+							}
+							choices = append(choices, choice{to, facts})
+						}
+						collect(x.Val, getFacts(), 0)
+						if bad || len(choices) == 0 {
 							r.Fail("G", core.QualName(fn), "store state = "+x.Val.String(), p.Pos(x.Pos()), "a value that is not a bound state method is stored into the state variable (undecided transition)")
 							continue
 						}
-						e := &sgEdge{From: fn, To: to, Deferred: true, Site: x, Facts: getFacts()}
-						n.Out = append(n.Out, e)
-						g.Nodes[to].In = append(g.Nodes[to].In, e)
+						for _, ch := range choices {
+							e := &sgEdge{From: fn, To: ch.to, Deferred: true, Site: x, Facts: ch.facts}
+							n.Out = append(n.Out, e)
+							g.Nodes[ch.to].In = append(g.Nodes[ch.to].In, e)
+						}
 					}
 					if fr.Field == typeField {
 						k, ok := ssax.ConstInt(x.Val)
